@@ -265,6 +265,7 @@ func c20Round(c *c20Case, dir string) error {
 					msg, err := wnc.Request("admin.storeVerify", nil, 30*time.Second)
 					if err != nil {
 						atomic.AddInt32(&unanswered, 1)
+						return
 					} else if len(msg.Data) > 0 {
 						atomic.StoreInt32(&verifyOK, 0)
 					}
@@ -273,7 +274,9 @@ func c20Round(c *c20Case, dir string) error {
 				rc, _ := c20Request(wnc, op)
 				switch rc {
 				case 2:
+					// the instance does not answer any more: no point in queueing further requests
 					atomic.AddInt32(&unanswered, 1)
+					return
 				case 0:
 					ack(op)
 					if op.Kind == "np" && wr.Intn(3) == 0 {
@@ -315,7 +318,7 @@ func c20Round(c *c20Case, dir string) error {
 				got, err := c20ReadNode(rnc, n)
 				if err != nil {
 					atomic.AddInt32(&unanswered, 1)
-					continue
+					return
 				}
 				c.Readers[rd] = append(c.Readers[rd], c20Read{Node: n, Points: got})
 				time.Sleep(time.Duration(rr.Intn(3)) * time.Millisecond)
@@ -411,7 +414,7 @@ func runC20(cfg *config) error {
 				c.Err = "worker output unreadable: " + err.Error()
 				c.Unanswered++
 			}
-		case <-time.After(2 * time.Minute):
+		case <-time.After(6 * time.Minute):
 			_ = cmd.Process.Kill()
 			c.Err = "stress round did not finish (deadlock?)"
 			c.Unanswered++
